@@ -36,7 +36,9 @@ def semantic(obs):
         servers[lab] = [[[m["method"].hex(), m["target"].hex(), [[k.hex(), v.hex()] for k, v in m["fields"]], m["body"].hex()] for m in q.messages],
                         str(q.stop), (b[q.rest:].hex() if q.stop and q.stop[0] != "incomplete" else "")]
     return {"flows": flows, "client": client, "ctail": ctail, "errs": errs, "servers": servers,
-            "closed": obs["closed"], "half_closed": obs["half_closed"]}, obs["crash"]
+            # closing matters to C02 where it is part of a message: the client connection (ends a read-until-close
+            # response) and half-closes; whether an idle upstream connection is kept is not something a peer "receives"
+            "closed": [c for c in obs["closed"] if c == "client"], "half_closed": obs["half_closed"]}, obs["crash"]
 
 
 def diff_keys(a, b):
@@ -69,8 +71,8 @@ class Check(PropertyCheck):
             "chunked + pipelining, bare-LF head + read-until-close), then generated exchanges of C01's grammar x schedules: one cut, "
             "k random cuts, all-one-byte; x random client/server interleavings. distinct = distinct (exchange, schedule); "
             "non-trivial = at least one segment boundary.")
-    budget = {"quick": 700, "thorough": 60000}
-    time_budget = {"quick": 12, "thorough": 480}
+    budget = {"quick": 1500, "thorough": 60000}
+    time_budget = {"quick": 20, "thorough": 480}
     fingerprints = ["mitmproxy.proxy.layers.http._http1:Http1Connection._handle_event", "mitmproxy.proxy.layers.http._http1:Http1Connection.read_body",
                     "mitmproxy.proxy.layers.http._http1:Http1Connection.wait", "mitmproxy.proxy.layers.http._http1:Http1Connection.mark_done",
                     "mitmproxy.proxy.layers.http._http1:Http1Connection.make_pipe",
@@ -80,7 +82,7 @@ class Check(PropertyCheck):
     trusted_base = ["h11 ReceiveBuffer / ContentLengthReader / Http10Reader as transcribed in Model/C02.lean; h11 ChunkedReader not modelled",
                     "harness/common/world.py as the stand-in for proxy/server.py (validated separately against the asyncio server)",
                     "harness/common/refparsers.py for comparing what the peers receive semantically"]
-    parallel = True
+    parallel = False
     has_model = False
 
     def generate(self, rng, tier):
